@@ -221,17 +221,31 @@ def write_evidence(pid, spec, tier, seed, agg, stages_info, wall, violations, kn
     with open(tmp, "w") as f:
         json.dump(ev, f, indent=1, default=str)
     os.replace(tmp, path)
-    try:
-        import jsonschema  # type: ignore
-        schema_path = "/root/.vp/EVIDENCE.schema.json"
-        if os.path.exists(schema_path):
-            jsonschema.validate(ev, json.load(open(schema_path)))
-    except ImportError:
-        pass
-    except Exception as e:  # schema problem is infrastructure trouble
-        print("evidence does not validate: %s" % str(e)[:500])
+    msg = validate_json(path, "/root/.vp/EVIDENCE.schema.json")
+    if msg:
+        print("evidence does not validate: %s" % msg[:500])
         return False
     return True
+
+
+def validate_json(path, schema_path):
+    """returns '' if valid or not checkable, else the message"""
+    if not os.path.exists(schema_path):
+        return ""
+    code = ("import json,sys,jsonschema\n"
+            "jsonschema.validate(json.load(open(sys.argv[1])), json.load(open(sys.argv[2])))\n")
+    for py in (sys.executable, "python3-vt", "/opt/veriftools/pyvenv/bin/python3"):
+        try:
+            p = subprocess.run([py, "-c", code, path, schema_path], stdout=subprocess.PIPE,
+                               stderr=subprocess.STDOUT, text=True, timeout=60)
+        except (OSError, subprocess.TimeoutExpired):
+            continue
+        if p.returncode == 0:
+            return ""
+        if "No module named" in p.stdout:
+            continue
+        return p.stdout.strip().splitlines()[-1] if p.stdout.strip() else "invalid"
+    return ""
 
 
 PASSED_RE = re.compile(r"OK, passed (\d+) tests")
